@@ -7,6 +7,10 @@ import PdshVerif.Dsh.SignalsFan
 import PdshVerif.Dsh.SignalsRank
 import PdshVerif.Dsh.SignalsBound
 import PdshVerif.Dsh.SignalsOnce
+import PdshVerif.Dsh.SignalsList
+import PdshVerif.Dsh.SignalsOrder
+import PdshVerif.Dsh.SignalsExit
+import PdshVerif.Dsh.SignalsOutput
 import PdshVerif.Props.C03
 import PdshVerif.Props.C04
 
@@ -41,6 +45,37 @@ What is proved (for every `v`, `f`, `n`, every schedule and arrival time unless 
       run) ending in a state with the same worker program counters, `t[i].state`, threadcount, dispatcher state
       and exit status; and: not -b, clock past INTR_TIME, at most one signal delivered in the whole run and
       that a SIGINT ⇒ S never forwards, exits or cancels, for every schedule and arrival time;
+* `listing_names_connecting_or_running`, `listing_printed_is_the_snapshot`, `both_listing_disciplines`
+      what the ^C listing names: taking thd_mutex in `_list_slowthreads` records exactly the slots that are RCMD
+      ("connecting") or READING ("command in progress") at that moment; each such host has a worker that has marked
+      itself and not yet recorded the end of its command; every host whose command is running is named, and every host
+      inside or around rcmd_connect unless ^Z canceled it; the recorded list is what is printed *whenever* it is printed:
+      the LTS accepts "print with thd_mutex held" (dsh.c as pinned: `listing k` → … → `listing 0` → unlock), "copy, unlock,
+      print" (harmless change C20-H2: unlock at `listing k` → `printing (k-1)` → …) and every mixture, and EVERY theorem
+      of this file holds for all of them (they are proved of the one `step`); both pure disciplines are shown to be
+      runs with the same final state;
+* `lock_order`
+      lock discipline over all four kinds of threads (dispatcher, workers, signals thread, watchdog) and both mutexes,
+      for every schedule, arrival time and watchdog scan: no thread ever holds threadcount_mutex and thd_mutex together,
+      the watchdog never holds threadcount_mutex, and whoever holds either mutex has an enabled operation of its own
+      that acquires nothing — a holder never waits, so the wait-for graph has no cycle; in particular the signals
+      thread and the watchdog cannot hold each other's mutex in reverse order;
+* `normal_exit_records_whole`, `abort_tears_at_most_the_last_record`, `no_deadlock_with_stdio`, `product_projects`
+      "never corrupts the output of hosts that complete": the product of the LTS with one output stream under what stdio
+      guarantees — per-call atomicity (`Dsh/SignalsOutput.lean`: a call locks the FILE, copies its bytes, unlocks; one
+      call = one record, as C06 `line_records_atomic` shows of dsh.c; a thread inside a call performs no protocol
+      operation; exit() stops everything wherever the others are).  At a normal end no call is in progress and the stream
+      is the concatenation of whole records; at ANY moment — so also when an abort calls exit() while workers are inside
+      fputs — the stream is whole records followed by at most one incomplete record, which is the last thing in the
+      stream, a prefix of what its owner was writing, and owned by the signals thread or by a worker that has not
+      completed: the records of every host that completed are whole (that one record can be cut anywhere is witnessed by
+      the example).  The FILE lock is a third mutex and a leaf: its holder — even the signals thread printing a listing
+      with thd_mutex held, or the canceled count with threadcount_mutex held — never waits; the product never deadlocks;
+* `canceled_run_S_nonzero`, `harmless_same_exit_status`   (composition with C08's model of the -S loop, `Dsh/Exit.lean`)
+      a run in which ^C ^Z cancels a target that was not started and that goes on to its normal end exits non-zero under
+      -S (repaired worker, repaired loop: the slot is still CANCELED when dsh() returns and the loop counts it); after a
+      harmless interrupt the loop reads the same slots as after the signal-free run: same exit status.  With
+      `exit_nonzero_on_abort` (= C08 `sigint_abort_nonzero`) every way a run with interrupts ends has its status;
 * `tstp_window`, `tstp_cancels_only_pending`, `canceled_new_never_started`, `dispatcher_skips_canceled`
       ^Z within INTR_TIME of the last report cancels, else stops; the cancellation changes no worker's program
       counter, only NEW/RCMD slots (whose worker, by the invariant `TInv`, has not recorded a connection) and
@@ -69,7 +104,7 @@ What is proved (for every `v`, `f`, `n`, every schedule and arrival time unless 
       With `no_deadlock_with_signals`: every run with finitely many spurious wake-ups and signals that is continued
       as long as a thread of pdsh can move ends, and it ends with dsh() returned or exit(1) called;
 * `cancel_requested_after_drain`, `signals_thread_ended_before_return`, `ended_thread_is_silent`,
-  `progress_needs_only_sigwait`, `watchdog_stopped_first`
+  `progress_needs_only_sigwait`, `watchdog_stopped_first`, `thread_array_not_touched_after_free`
       the shutdown tail ("an interrupt during the final drain"): pthread_cancel(thread_sig) is a *request* (`St.scan`);
       the thread runs on and ends (`SAct.die`) at a cancellation point — the model lets that be any point of a handler,
       at the latest sigwait, so every C library is covered.  The request is made only when every worker is done and no
@@ -90,11 +125,17 @@ What is proved (for every `v`, `f`, `n`, every schedule and arrival time unless 
       thread and the environment forgotten, a run of `Dsh/Fan.lean` with stutter steps — so the C03/C04 theorems
       hold of it (two of them are restated here).
 
-Not proved here: that dsh.c refines the LTS (trace correspondence of `checks/c20.py`, incl. the listing =
-RCMD/READING hosts, which the model computes at `S.lockT` and the acceptor compares); fairness of the real
-scheduler (`no_deadlock_with_signals` says a step is *possible*); the content of relayed output (C05/C06);
--k, the watchdog, pthread_create/rcmd_create failure; plain-memory races below the granularity of wrapped
-calls (`_cancel_pending_threads`' check-then-write vs. `_update_connect_state`); exit() racing with stdio locks.
+Not proved here: that dsh.c refines the LTS (trace correspondence of `checks/c20.py`: every event enabled, equal
+threadcount / t[i].state / enabled sets, the hosts the listing names = `St.listed`; plus the real dsh.c on real threads
+with real signals, `harness/sigthread_harness.c`, which is what decides `_mask_signals` and the sigwait set); fairness of
+the real scheduler (`no_deadlock_with_signals` says a step is *possible*); the content of relayed output (which bytes
+a record consists of is C05/C06; here a record is an opaque call, and per-call atomicity of stdio is the modelled
+guarantee, not something proved of libc; glibc's exit() flushing a FILE without taking its lock can, beyond the model,
+also duplicate buffered bytes of a fully-buffered stdout — runtime behaviour, see the MANIFEST note); the deadlines of connect/command
+time-outs (C07's Timed model is not composed: here a connect may fail and a read loop may be given up — `W.lockTF`, result
+DSH_FAILED — at ANY moment, and the watchdog locks, signals and unlocks whenever the schedule lets it, which
+over-approximates every deadline; all theorems above hold of that); -k, pthread_create/rcmd_create failure; plain-memory races below the granularity of
+wrapped calls (`_cancel_pending_threads`' check-then-write vs. `_update_connect_state`); exit() racing with stdio locks.
 -/
 namespace PdshVerif.Props.C20
 open PdshVerif.Dsh.Sig
@@ -218,13 +259,206 @@ theorem single_int_harmless {v : Variant} {g sw : Bool} {f n t0 : Nat} {ls : Lis
     have hex := (ha.ex (by rw [hx]; rfl)).1
     by_cases hz : ls.countP Label.isSigwait = 0
     · rcases (hj.zero hz).2 with h | h | h <;> rw [hex] at h <;> cases h
-    · rcases hj.one (by omega) with h | h | h | ⟨k, h⟩ | h | h
+    · rcases hj.one (by omega) with h | h | h | h | h | h
       · rw [hex] at h; cases h.1
       · rw [hex] at h; cases h
       · rw [hex] at h; cases h
       · rw [hex] at h; cases h
       · rw [hex] at h; cases h
       · rw [hex] at h; cases h
+
+/-! ## what the listing names (both locking disciplines) -/
+
+/-- C20: the ^C listing.  `_list_slowthreads` takes thd_mutex and records (`St.listed`, one clock reading per entry
+    scheduled) exactly the slots that are RCMD or READING at that moment, in slot order.  Every host it names is still
+    connecting — its worker has marked itself DSH_RCMD and not yet recorded the outcome of rcmd_connect — or running —
+    connected, in its read loop; every host whose command is running is named; a host inside or around rcmd_connect is
+    named unless ^Z has canceled its slot meanwhile. -/
+theorem listing_names_connecting_or_running {v : Variant} {g sw : Bool} {f n t0 : Nat} {b : Bool} {s s' : St}
+    (h : Reach v g sw f n b t0 s) (hs : step s (.s .lockT) = some s') (hw : s.spc = .listLock) :
+    s'.listed = listedNow s ∧ s'.spc = .listing s'.listed.length ∧
+    (∀ j ∈ s'.listed, j < n ∧ ((tsAt s j = .rcmd ∧ connectingPC (pc s j) = true) ∨
+                               (tsAt s j = .reading ∧ runningPC (pc s j) = true))) ∧
+    (∀ j, j < n → pc s j = .reading → j ∈ s'.listed) ∧
+    (∀ j, j < n → connectingPC (pc s j) = true → j ∈ s'.listed ∨ tsAt s j = .canceled ∨ tsAt s j = .failed) := by
+  obtain ⟨h1, h2, _, _⟩ := listing_is_snapshot hs hw
+  rw [h1]
+  refine ⟨rfl, h2, fun j hj => listed_connecting_or_running h hj, fun j hj hp => (running_is_listed h hj).1 hp,
+    fun j hj hp => (running_is_listed h hj).2 hp⟩
+
+/-- C20: what was recorded under the mutex is what is printed, whenever the printing happens: no step other than the
+    signals thread taking thd_mutex for a new listing changes `St.listed` — not a worker changing state while the
+    lines are printed after the unlock, not a delivery, not the clock -/
+theorem listing_printed_is_the_snapshot {s s' : St} {l : Label} (hs : step s l = some s')
+    (hl : ¬ (l = .s .lockT ∧ s.spc = .listLock)) : s'.listed = s.listed := by
+  rcases listed_frozen hs with h | h
+  · exact h
+  · exact absurd h hl
+
+/-- C20 is indifferent to the locking discipline of the listing: from the moment the snapshot is taken, "print the `k`
+    lines, then unlock" (dsh.c as pinned) and "unlock, then print the `k` lines" (C20-H2) are both runs of the model and
+    end in the same state: signals thread back in sigwait, thd_mutex free, everything else untouched -/
+theorem both_listing_disciplines {s : St} {k : Nat} (hx : s.exited = none) (hw : s.spc = .listing k) :
+    run s (times s.now k ++ [.s .unlockT]) = some { s with spc := .waiting, thd := .none } ∧
+    run s ([.s .unlockT] ++ times s.now k) = some { s with spc := .waiting, thd := .none } :=
+  both_disciplines hx hw
+
+/-- non-vacuity: N = 2, fanout 2, h0 running, h1 connecting when ^C arrives: the listing names both; printed after the
+    unlock (C20-H2's discipline) while h1's connect completes in between — accepted, and `listed` is still [0, 1] -/
+example : (run (init .whileWait true false 2 2 false 10)
+    ([.d .createS, .d .lock, .d (.create 0), .d .unlock, .d .lock, .d (.create 1), .d .unlock,
+      .w 0 .lockT, .w 0 .unlockT, .w 0 .connectBegin, .w 0 (.connectEnd true), .w 0 .lockT, .w 0 .time, .w 0 .unlockT,
+      .w 1 .lockT, .w 1 .unlockT, .w 1 .connectBegin] ++
+     [.e (.deliver .int), .s (.sigwait .int), .s (.time 10), .s (.time 10), .s .lockT, .s .unlockT,
+      .w 1 (.connectEnd true), .w 1 .lockT, .s (.time 10), .w 1 .time, .w 1 .unlockT, .s (.time 10)])).map
+      (fun s => (s.listed, decide (s.spc = .waiting), s.ts)) = some ([0, 1], true, [.reading, .reading]) := by decide
+
+/-! ## lock discipline: dispatcher, workers, signals thread and watchdog -/
+
+/-- C20 (never deadlocks — the mutex part, watchdog included): in every reachable state in which pdsh is still
+    running, no thread holds threadcount_mutex and thd_mutex together; the watchdog never holds threadcount_mutex; and
+    the holder of thd_mutex, and the holder of threadcount_mutex, each has an enabled operation *of its own* that
+    acquires no mutex (it reads the clock, signals, creates, waits on the condition variable — which releases — or
+    unlocks).  A thread that holds a mutex therefore never waits for one: there is no lock order to violate, between
+    any two of dispatcher, workers, signals thread and watchdog, under any schedule.  (`s.spc ≠ .cancelled`: short of
+    the signals thread having ended on dsh()'s request, which is made only after the final drain.) -/
+theorem lock_order {v : Variant} {g sw : Bool} {f n t0 : Nat} {b : Bool} {s : St} (h : Reach v g sw f n b t0 s)
+    (hx : s.exited = none) (hnc : s.spc ≠ .cancelled) :
+    (∀ t, t ≠ .none → ¬ (s.own = t ∧ s.thd = t)) ∧ s.own ≠ .g ∧
+    (s.thd ≠ .none → RunsOn s s.thd) ∧ (s.own ≠ .none → RunsOn s s.own) := by
+  have hinv := inv_reach h
+  exact ⟨fun t ht => never_both hinv hnc t ht, hinv.w.ownG, fun ht => thd_holder_runs hinv hx ht hnc,
+    fun ho => own_holder_runs hinv hx ho hnc⟩
+
+/-- non-vacuity (repaired shutdown, N = 1): the watchdog holds thd_mutex around slot 0 when ^C arrives; the signals
+    thread, which wants thd_mutex for the listing, cannot take it — and the watchdog can release it -/
+example : (run (init .whileWait true true 1 1 false 10)
+    [.d .createG, .d .createS, .d .lock, .d (.create 0), .d .unlock, .g .lockT,
+     .e (.deliver .int), .s (.sigwait .int), .s (.time 10), .s (.time 10)]).map
+      (fun s => (decide (s.thd = .g ∧ s.spc = .listLock), (step s (.s .lockT)).isSome, (step s (.g .unlockT)).isSome)) =
+    some (true, false, true) := by decide
+
+/-- non-vacuity, an interrupt while the watchdog times a host out (-b, N = 1, repaired shutdown): the watchdog holds
+    thd_mutex around slot 0 (it sends SIGALRM to the worker) when ^C arrives; the signals thread must wait for the
+    mutex; once it has it, host 0 — whose worker has not yet recorded the failure — is still READING and gets the
+    SIGINT; exit(1).  In the other order (last line) the worker gives its read loop up first (`lockTF`: DSH_FAILED) and
+    nothing is left to signal -/
+example :
+    (run (init .whileWait true true 1 1 true 10)
+      ([.d .createG, .d .createS, .d .lock, .d (.create 0), .d .unlock,
+        .w 0 .lockT, .w 0 .unlockT, .w 0 .connectBegin, .w 0 (.connectEnd true), .w 0 .lockT, .w 0 .time, .w 0 .unlockT,
+        .g .lockT, .e (.deliver .int), .s (.sigwait .int)])).map
+        (fun s => ((step s (.s .lockT)).isSome, (step s (.g .unlockT)).isSome)) = some (false, true) ∧
+    (run (init .whileWait true true 1 1 true 10)
+      ([.d .createG, .d .createS, .d .lock, .d (.create 0), .d .unlock,
+        .w 0 .lockT, .w 0 .unlockT, .w 0 .connectBegin, .w 0 (.connectEnd true), .w 0 .lockT, .w 0 .time, .w 0 .unlockT,
+        .g .lockT, .e (.deliver .int), .s (.sigwait .int), .g .unlockT, .s .lockT, .s (.fwd 0), .s .unlockT,
+        .s (.exit 1)])).map (fun s => (s.fwds, s.exited)) = some ([0], some 1) ∧
+    (run (init .whileWait true true 1 1 true 10)
+      ([.d .createG, .d .createS, .d .lock, .d (.create 0), .d .unlock,
+        .w 0 .lockT, .w 0 .unlockT, .w 0 .connectBegin, .w 0 (.connectEnd true), .w 0 .lockT, .w 0 .time, .w 0 .unlockT,
+        .g .lockT, .e (.deliver .int), .s (.sigwait .int), .g .unlockT, .w 0 .lockTF, .w 0 .unlockT, .s .lockT,
+        .s .unlockT, .s (.exit 1)])).map (fun s => (s.fwds, s.ts, s.exited)) = some ([], [.failed], some 1) := by
+  refine ⟨?_, ?_, ?_⟩ <;> decide
+
+/-! ## the exit status, composed with the -S loop of C08 -/
+
+/-- C20 + C08: ^C ^Z with -S.  Repaired worker, repaired -S loop (F08-CANCELED), per-target codes in 0..255: if
+    `_cancel_pending_threads` finds target `j` not yet started, then however the run continues, when it comes to its
+    normal end the exit status under -S is not 0 — the canceled target is still DSH_CANCELED when dsh() returns and the
+    loop at the end of dsh() (C08's `aggregate`) counts it as a failure -/
+theorem canceled_run_S_nonzero {v : Variant} {sw : Bool} {f n t0 : Nat} {b : Bool} {s s' s'' : St} {ls : List Label} {j : Nat}
+    (h : Reach v true sw f n b t0 s) (hs : step s (.s .lock) = some s') (he : Exec s' ls s'') (hj : j < n)
+    (hnew : tsAt s j = .new) (fx : PdshVerif.Dsh.Exit.Fixes) (hc : fx.canc = true) (k : Bool) (rcs : List Int)
+    (hl : rcs.length = n) (hrc : ∀ r ∈ rcs, 0 ≤ r ∧ r ≤ 255) :
+    PdshVerif.Dsh.Exit.mainExit fx ⟨true, k⟩ (.started (finalHosts s''.ts rcs)) ≠ 0 :=
+  PdshVerif.Dsh.Sig.canceled_run_S_nonzero h hs he hj hnew fx hc k rcs hl hrc
+
+/-- C20 + C08: "the run continues unharmed to its normal result" includes the exit status: erasing a harmless
+    interrupt (`erase_commutes`) leaves the slots the -S loop reads unchanged, so the status is that of the
+    signal-free run, whatever the flags -/
+theorem harmless_same_exit_status (s : St) (fx : PdshVerif.Dsh.Exit.Fixes) (fl : PdshVerif.Dsh.Exit.Flags) (rcs : List Int) :
+    PdshVerif.Dsh.Exit.mainExit fx fl (.started (finalHosts (strip s).ts rcs)) =
+      PdshVerif.Dsh.Exit.mainExit fx fl (.started (finalHosts s.ts rcs)) :=
+  PdshVerif.Dsh.Sig.harmless_same_exit_status s fx fl rcs
+
+/-- non-vacuity of `canceled_run_S_nonzero`: the run of the example further down (N = 2, fanout 1, ^C ^Z cancels host 1,
+    host 0 completes, dsh() returns) with codes [0, 0] under -S: status 254, not 0 -/
+example : PdshVerif.Dsh.Exit.mainExit PdshVerif.Dsh.Exit.Fixes.all ⟨true, false⟩
+    (.started (finalHosts [.done, .canceled] [0, 0])) = 254 := by decide
+
+/-! ## interrupts and the output stream: what an abort can tear; the stdio lock as third mutex -/
+
+/-- the protocol part of a run of the product (protocol LTS × one output stream under per-call atomicity,
+    `Dsh/SignalsOutput.lean`) is a run of the protocol LTS: every theorem of this file holds of it -/
+theorem product_projects {v : Variant} {g sw : Bool} {f n t0 : Nat} {b : Bool} {ls : List PLabel} {p : PSt}
+    (he : PExec (pinit v g sw f n b t0) ls p) :
+    Exec (init v g sw f n b t0) (ls.filterMap fun l => match l with | .proto x => some x | _ => none) p.p :=
+  pexec_proj he
+
+/-- C20 ("never corrupts the output of hosts that complete"), normal end: with the repaired shutdown, when dsh() has
+    returned — whatever interrupts arrived, whatever was listed or canceled — no stdio call is in progress and the stream
+    is exactly the concatenation of the records written: nothing is torn, nothing is interleaved -/
+theorem normal_exit_records_whole {v : Variant} {g : Bool} {f n t0 : Nat} {b : Bool} {ls : List PLabel} {p : PSt}
+    (he : PExec (pinit v g true f n b t0) ls p) (hr : p.p.dpc = .returned) :
+    p.out.cur = none ∧ content p.out = p.out.done.flatMap (·.bytes) := by
+  obtain ⟨hinv, ho⟩ := pexec_invs he
+  have hsw : p.p.sw = true := by
+    have := exec_sw (pexec_proj he); simpa [pinit, init] using this
+  exact normal_end_whole hinv ho hsw hr
+
+/-- C20, the abort (`errx` from the signals thread while workers are inside `fputs`) — and every other moment: the
+    stream is a sequence of WHOLE records followed by at most ONE incomplete record; the incomplete one is the last
+    thing in the stream and a prefix of the record its owner was writing; its owner is the signals thread or a worker
+    that has not completed; a host that has completed (result recorded, buffers flushed) has no call in progress, so
+    all its records are whole.  This is exactly what per-call atomicity of stdio gives, and all of it: the record in
+    progress when exit() is called may be cut anywhere -/
+theorem abort_tears_at_most_the_last_record {v : Variant} {g sw : Bool} {f n t0 : Nat} {b : Bool} {ls : List PLabel}
+    {p : PSt} (he : PExec (pinit v g sw f n b t0) ls p) :
+    (p.out.cur = none → content p.out = p.out.done.flatMap (·.bytes)) ∧
+    (∀ c k, p.out.cur = some (c, k) →
+      content p.out = p.out.done.flatMap (·.bytes) ++ c.bytes.take k ∧ k ≤ c.bytes.length ∧
+      (c.owner = .s ∨ ∃ j, c.owner = .w j ∧ completedW (pc p.p j) = false)) ∧
+    (∀ j, completedW (pc p.p j) = true → inCall p.out (.w j) = false) := by
+  obtain ⟨hinv, ho⟩ := pexec_invs he
+  exact ⟨(stream_shape hinv ho).1, (stream_shape hinv ho).2, fun j hj => completed_host_not_in_call ho hj⟩
+
+/-- C20 (never deadlocks), with the stdio lock as a third mutex: whoever is inside a stdio call — possibly the signals
+    thread holding thd_mutex (listing) or threadcount_mutex (canceled count) — can always go on (the FILE lock is a
+    leaf: lock order  threadcount_mutex | thd_mutex → FILE, never back), and until dsh() has returned or exit() was
+    called some thread of pdsh can take a step in the product -/
+theorem no_deadlock_with_stdio {v : Variant} {g sw : Bool} {f n t0 : Nat} {b : Bool} {ls : List PLabel} {p : PSt}
+    (hf : 0 < f) (he : PExec (pinit v g sw f n b t0) ls p) (hnf : ¬ Final p.p) :
+    (∀ c k, p.out.cur = some (c, k) → (pstep p .copy).isSome = true ∨ (pstep p .finish).isSome = true) ∧
+    ∃ l, l.proper = true ∧ (pstep p l).isSome = true := by
+  obtain ⟨hinv, ho⟩ := pexec_invs he
+  have hx : p.p.exited = none := by
+    cases hx : p.p.exited with
+    | none => rfl
+    | some c => exact absurd (Or.inr (by rw [hx]; rfl)) hnf
+  have hr : p.p.dpc ≠ .returned := fun hc => hnf (Or.inl hc)
+  have hfs : 0 < p.p.f := by
+    have := (exec_params (pexec_proj he)).2.1
+    rw [this]; simpa [pinit, init] using hf
+  exact ⟨fun c k hc => file_holder_runs ho hx hc, product_progress hinv ho hfs hx hr⟩
+
+/-- non-vacuity, an abort that tears a record: -b, N = 1; host 0 is in its read loop and has put 2 of the 3 bytes of a
+    record into the stream when ^C arrives; the signals thread forwards SIGINT and calls exit(1) while the worker is
+    still inside its call: the stream ends with the 2-byte prefix, after the one whole record written before -/
+example : (prun (pinit .whileWait true false 1 1 true 10)
+    ([.d .createS, .d .lock, .d (.create 0), .d .unlock, .w 0 .lockT, .w 0 .unlockT, .w 0 .connectBegin,
+      .w 0 (.connectEnd true), .w 0 .lockT, .w 0 .time, .w 0 .unlockT].map .proto ++
+     [.begin ⟨.w 0, [1, 2]⟩, .copy, .copy, .finish, .begin ⟨.w 0, [7, 8, 9]⟩, .copy, .copy] ++
+     [.e (.deliver .int), .s (.sigwait .int), .s .lockT, .s (.fwd 0), .s .unlockT, .s (.exit 1)].map .proto)).map
+      (fun p => (content p.out, p.p.exited, p.p.fwds)) = some ([1, 2, 7, 8], some 1, [0]) := by decide
+
+/-- ... and a worker inside a call cannot perform a protocol operation, nor can a second call begin -/
+example : (prun (pinit .whileWait true false 1 1 true 10)
+    ([.d .createS, .d .lock, .d (.create 0), .d .unlock, .w 0 .lockT, .w 0 .unlockT, .w 0 .connectBegin,
+      .w 0 (.connectEnd true), .w 0 .lockT, .w 0 .time, .w 0 .unlockT].map .proto ++
+     [.begin ⟨.w 0, [7, 8, 9]⟩, .copy])).map
+      (fun p => ((pstep p (.proto (.w 0 .lockT))).isSome, (pstep p (.begin ⟨.s, [5]⟩)).isSome, (pstep p .copy).isSome)) =
+    some (false, false, true) := by decide
 
 /-! ## ^C ^Z -/
 
@@ -481,6 +715,34 @@ theorem ended_thread_is_silent {s : St} (hc : s.spc = .cancelled) (a : SAct) : s
   split
   · rfl
   · cases a <;> simp [sStep, hc]
+
+/-- C20, the set-up / tear-down that fix f3532d1 (F20-LATEINT) and 7eedfb6 (F07-STALEID) repaired, as one statement: with
+    the repaired shutdown, once dsh() has returned — it goes on to free `t[]` — neither the signals thread nor the
+    watchdog takes another step, under any schedule and whatever signals are still delivered: nothing walks the
+    thread array after it is freed.  (Both were asked to end only after the final drain, `cancel_requested_after_drain`,
+    and dsh() waited for both, `watchdog_stopped_first`, `signals_thread_ended_before_return`.) -/
+theorem thread_array_not_touched_after_free {v : Variant} {g : Bool} {f n t0 : Nat} {b : Bool} {s : St}
+    (h : Reach v g true f n b t0 s) (hr : s.dpc = .returned) :
+    (∀ a, step s (.s a) = none) ∧ (∀ a, step s (.g a) = none) ∧ (∀ i a, step s (.w i a) = none) := by
+  have hinv := inv_reach h
+  obtain ⟨hsc, hsp⟩ := signals_thread_ended_before_return h hr
+  obtain ⟨_, hge, _, _⟩ := watchdog_stopped_first h hsc
+  refine ⟨fun a => ended_thread_is_silent hsp a, fun a => ?_, fun i a => ?_⟩
+  · simp only [step]
+    split
+    · rfl
+    · cases a <;> simp [gStep, hge]
+  · simp only [step]
+    split
+    · rfl
+    · simp only [wStep]
+      cases hp : s.ws[i]? with
+      | none => rfl
+      | some p =>
+        have hi : i < s.ws.length := lt_of_getElem?' hp
+        have hpc : pc s i = p := getD_of_getElem?' hp
+        rcases hinv.f.fin (by rw [hr]; rfl) i hi with h1 | h1 <;> rw [hpc] at h1 <;> subst h1 <;>
+          cases a <;> simp [wNext]
 
 /-- C20: the cancellation takes effect only after it was requested -/
 theorem ends_only_on_request {s s' : St} (hs : step s (.s .die) = some s') : s.scan = true ∧ s'.spc = .cancelled := by
